@@ -232,7 +232,10 @@ func Run(tier string) {
 		}
 		h, err := build(w, cases[i].Rs, pt)
 		if err != nil {
-			vk.Infra("building %s: %v", k, err)
+			// the library does not read back the header it has just written for this list: C03 cannot be put to
+			// that file (C01 and C05 judge it); the other lists go on
+			run.Drift("no honest file for %s: %v", k, truncErr(err))
+			continue
 		}
 		files[k] = h
 		fks[k] = fileKeyOf(w, &cases[i], h)
@@ -245,6 +248,9 @@ func Run(tier string) {
 		}
 		k := coregen.RecipSig(c.Rs)
 		h := files[k]
+		if h == nil {
+			return
+		}
 		fk := fks[k]
 		if fk == nil && (c.Edit.What == "wk") {
 			return
@@ -306,7 +312,8 @@ func byteLevel(run *vk.Run, w *world.World, pt []byte) {
 		}
 		h, err := build(w, rs, pt)
 		if err != nil {
-			vk.Infra("%v", err)
+			run.Drift("no honest file for %v: %v", l, truncErr(err))
+			continue
 		}
 		hdrLen := len(h.file) - len(h.payload)
 		sigBase := "rs=" + strings.Join(l, ",")
@@ -415,6 +422,14 @@ func byteLevel(run *vk.Run, w *world.World, pt []byte) {
 		run.Add("byte_level_mutations", len(muts))
 	}
 	_ = errors.New
+}
+
+func truncErr(err error) string {
+	s := err.Error()
+	if len(s) > 160 {
+		s = s[:160] + "..."
+	}
+	return s
 }
 
 func min(a, b int) int {
